@@ -7,6 +7,7 @@
 #  define RLBOX_SINGLE_THREADED_INVOCATIONS
 #endif
 #include <csignal>
+#include <fcntl.h>
 #include <new>
 #include <stdexcept>
 
@@ -64,14 +65,23 @@ inline void crash_handler(int sig)
                    (unsigned long long)g_progress.runseed);
   if (n > 0)
     (void)!write(1, buf, (size_t)n);
-  if (g_world && !g_crash_dir.empty()) {
-    std::string path = g_crash_dir + "/crash-" + g_world->name() + "-" +
-                       std::to_string(g_progress.runseed) + "-" + std::to_string(g_progress.index) + ".json";
-    write_replay(path, *g_world, g_current_plan, "-", "crash", "worker died", g_progress.runseed, 0, SIM_BUILD_NAME, {});
-    std::string m = "CRASHPLAN " + path + "\n";
-    (void)!write(1, m.c_str(), m.size());
+  if (g_crash_len && g_crash_path[0]) {
+    int fd = open(g_crash_path, O_CREAT | O_WRONLY | O_TRUNC, 0644);
+    if (fd >= 0) {
+      size_t off = 0;
+      while (off < g_crash_len) {
+        ssize_t w = write(fd, g_crash_buf + off, g_crash_len - off);
+        if (w <= 0)
+          break;
+        off += (size_t)w;
+      }
+      close(fd);
+      (void)!write(1, "CRASHPLAN ", 10);
+      (void)!write(1, g_crash_path, strlen(g_crash_path));
+      (void)!write(1, "\n", 1);
+    }
   }
-  _exit(70 + (sig == SIGSEGV ? 1 : sig == SIGABRT ? 2 : sig == SIGBUS ? 3 : 0));
+  _exit(70 + (sig == SIGSEGV ? 1 : sig == SIGABRT ? 2 : sig == SIGBUS ? 3 : sig == SIGALRM ? 4 : 0));
 }
 inline void terminate_handler()
 {
@@ -88,6 +98,7 @@ inline void install_crash_handlers(const char* dir)
   sigaction(SIGBUS, &sa, nullptr);
   sigaction(SIGFPE, &sa, nullptr);
   sigaction(SIGILL, &sa, nullptr);
+  sigaction(SIGALRM, &sa, nullptr);
   // SIGSEGV is installed by worlds that do not use the trap-MMU
 }
 inline void install_segv_handler()
